@@ -1,0 +1,9 @@
+// +build !verif
+
+package waiter
+
+import "sync"
+
+func verifYield(site string) {}
+
+func verifLock(l *sync.RWMutex, write bool, site string) {}
